@@ -245,6 +245,18 @@ def convert_case(case, fail):
             fail('bsf_to_pauli_dense', s)
         if bpauli.bsf_to_pauli(np.vstack([w8, w8])) != [s, s]:
             fail('bsf_to_pauli_dense_2d', s)
+        # ... for every integer width, incl. what the library's own
+        # converters hand out, alone and stacked with a different row
+        other = np.roll(want, 1)
+        s_other = ''.join('IXZY'[int(other[i]) + 2 * int(other[n + i])] for i in range(n))
+        for dt in (np.int8, np.uint16, np.int32, np.int64, np.uint64, np.asarray(v2).dtype):
+            wd = want.astype(dt)
+            if bpauli.bsf_to_pauli(wd) != s:
+                fail('bsf_to_pauli_dense', f'{s} as {np.dtype(dt).name}')
+            if bpauli.bsf_to_pauli(np.vstack([wd, other.astype(dt)])) != [s, s_other]:
+                fail('bsf_to_pauli_dense_2d', f'{s} stacked with {s_other} as {np.dtype(dt).name}')
+        if bpauli.bsf_to_pauli(np.vstack([v2, v2])) != [s, s]:
+            fail('bsf_to_pauli_dense_2d', f'{s}: stack of pauli_to_bsf outputs')
         if want.any() and bpauli.bsf_to_pauli(csr_matrix(w8.reshape(1, -1))) != [s]:
             fail('bsf_to_pauli_sparse', s)
         # a sparse row is the vector it stores, whatever the order of its
